@@ -203,6 +203,8 @@ class ClckEngine:
 			sim.abort()
 			for mod, name, val in reversed(saved):
 				setattr(mod, name, val)
+			from sim.seams import uninstall_seams
+			uninstall_seams()
 			toolkit.release_logs()
 		for v in viols:
 			v["owners"] = ["C09"]
